@@ -252,6 +252,10 @@ class BTr(pyarith.Tr):
                 raise Untranslatable('and/or over non-boolean operands')
             conn = ' ∨ ' if isinstance(e.op, ast.Or) else ' ∧ '
             return '(' + conn.join(x for x, _ in parts) + ')', PROP
+        if isinstance(e, ast.Compare) and len(e.ops) > 1:
+            # a < b < c: c is evaluated only if a < b holds
+            for c in e.comparators[1:]:
+                self.guarded(lambda c=c: self.expr(c))
         if isinstance(e, ast.Compare) and len(e.ops) == 1 and isinstance(e.ops[0], (ast.Eq, ast.NotEq)):
             l, r = self.expr(e.left), self.expr(e.comparators[0])
             if l[1] in (BYTES, NATLIST) or r[1] in (BYTES, NATLIST):
